@@ -797,6 +797,9 @@ private:
       // To prevent this, whenever we receive a Flush event, we clean up any invalidated thread contexts
       // before notifying the caller. This ensures that when `flush_log()` is invoked in `DllMain`
       // during `DLL_PROCESS_DETACH`, the `ThreadContext` is properly cleaned up before the DLL exits.
+
+      // report dropped / blocked statements first, a context removed below takes its counter with it
+      _check_failure_counter(_options.error_notifier);
       _cleanup_invalidated_thread_contexts();
 
       // Now it’s safe to notify the caller to continue execution.
